@@ -94,6 +94,9 @@ def run(ctx: vlib.Ctx):
         "TypedDict (4 forms), Optional/Union/PEP604/Final/Annotated, nested/inherited/generic/self-referencing/forward-referencing dataclasses, "
         "SerializableType (3 forms), serialization strategies, pass_through, field options, hooks, discriminators (4 forms), every Config option and "
         "code-generation flag, dialects, all six mixins and all six codecs; classes defined at module level, inside a function, or by the functional API); "
+        "family 'latename' puts a reference back to the class under construction (Self, its own name, a mutually recursive class) inside every "
+        "construct that is compiled as a separate helper function (non-Optional unions, containers of unions, constrained TypeVars, discriminated "
+        "unions, literals next to unions, nested holders) x mixin / codec (not nailed) / both x module / function scope, and demands an exact round trip; "
         "family 'identity' instantiates the adversarial shapes the property names (same-qualname local classes, clean_id collisions, functional "
         "Enum/NamedTuple/make_dataclass in a function, bogus __module__, re-bound names, MappingProxyType, defaultdict of a local class, class and "
         "module names shadowing names used by generated code) x class kind x position x entry point. Every schema is built under capture, every "
@@ -114,8 +117,9 @@ def run(ctx: vlib.Ctx):
         "(the translator rejects them)",
         "harness capture: rebinding the module global `exec` of builder/pack/unpack/common sees every generated program and its exact globals "
         "(checked each run: no other exec/eval call site in the package)",
-        "globals of a generated function only grow after the entry point is installed (setdefault never removes): the name set is snapshotted when "
-        "the schema's build (or the call that compiled lazily) returns",
+        "the namespace of a program is fn.__globals__ of the function objects it defined (not the dict the builder keeps), snapshotted when the "
+        "schema's build (or the call that compiled lazily) returns, and checked again at the end for every function reachable from the entry points; "
+        "it only grows afterwards (setdefault never removes)",
         "NsBind.clean_id models re.sub(r'\\W|^(?=\\d)', '_', s) for ASCII input only (compared with the implementation each run)",
     ]
     ctx.assumptions += [
@@ -142,11 +146,21 @@ def run(ctx: vlib.Ctx):
     jobs = 4 if ctx.quick() else 12
     res_g, skip_g = run_family(ctx, "grammar", n_grammar, ctx.budget(24, 40), jobs, ctx.budget(10, 25), 8.0)
     res_i, skip_i = run_family(ctx, "identity", n_ident, ctx.budget(12, 20), jobs, ctx.budget(10, 20), 8.0)
+    res_l, skip_l = run_family(ctx, "latename", ctx.budget(70, 600), ctx.budget(12, 20), jobs, ctx.budget(10, 25), 8.0)
+    skip_i = skip_i + skip_l
     if skip_g or skip_i:
         ctx.notes.append(f"schemas skipped because a call did not return in time (library loops on some inputs; not a C17 matter): grammar {skip_g}, identity {skip_i}")
     ctx.hist("schemas", "skipped-timeout", len(skip_g) + len(skip_i))
 
-    all_res = [("grammar", r) for r in res_g] + [("identity", r) for r in res_i]
+    all_res = [("grammar", r) for r in res_g] + [("identity", r) for r in res_i] + [("latename", r) for r in res_l]
+    reach = sum(r.get("reachable", 0) for _, r in all_res)
+    unknown = sum(r.get("unknown_fns", 0) for _, r in all_res)
+    ctx.hist("functions", "reachable-from-entry-points(checked against fn.__globals__)", reach)
+    ctx.hist("functions", "reachable-but-not-captured", unknown)
+    ctx.hist("programs", "exec-namespace-is-not-builder.globals", sum(r.get("ns_not_builder", 0) for _, r in all_res))
+    ctx.obligation("every generated function reachable from an entry point was created by a captured exec", unknown == 0, f"{unknown} of {reach}")
+    if unknown:
+        ctx.not_shown("capture-completeness", f"{unknown} reachable generated functions were not created by a captured exec call")
     programs = []          # (family, schema idx, program dict)
     attr_cases = []
     texts = set()
